@@ -86,6 +86,8 @@ def parseLOp : Sexp → Option LOp
   | .list (.atom "eq" :: xs) => (xs.mapM Sexp.int?).map .eqTo
   | .list (.atom "swap" :: xs) => (xs.mapM Sexp.int?).map .swapWith
   | .list [.atom "addall", d] => d.int?.map .addAll
+  | .list [.atom "tail"] => some .tailSnap
+  | .list [.atom "init"] => some .initSnap
   | _ => none
 
 def parsePairs (xs : List Sexp) : Option (List (Int × Int)) :=
